@@ -63,6 +63,15 @@ def programs(tier, seed):
         ops = progs.try_build(src)
         if ops is not None:
             ps.append((label, src, progs.tables_of(ops)))
+    # systematic shared-node family: one interior node, two visits asking for every pair of column subsets (disjoint, nested either way, overlapping)
+    subsets = [["g"], ["g", "x"], ["g", "y"], ["g", "z"], ["g", "x", "y"], ["g", "x", "z"], ["g", "y", "z"], ["g", "x", "y", "z"]]
+    for i, sa in enumerate(subsets):
+        for j, sb in enumerate(subsets):
+            src = (f"(lambda base: base.select_columns({sa!r}).natural_join(b=base.select_columns({sb!r}), on=['g'], jointype='left'))"
+                   f"({D}.extend({{'z': 'x + 1'}}))")
+            ops = progs.try_build(src)
+            if ops is not None:
+                ps.append((f"shared_pair_{i}_{j}", src, progs.tables_of(ops)))
     for tr in progs.CURATED:
         src = progs.make(tr)
         ops = progs.try_build(src)
